@@ -1,1 +1,13 @@
 import Cutadapt.Properties.C04
+#print axioms Cutadapt.C04.each_read_one_fate
+#print axioms Cutadapt.C04.each_pair_one_fate
+#print axioms Cutadapt.C04.exSteps_terminal
+#print axioms Cutadapt.C04.summarize_append
+#print axioms Cutadapt.C04.figures_are_sums_over_reads_single
+#print axioms Cutadapt.C04.figures_are_sums_over_reads_paired
+#print axioms Cutadapt.C04.counts_add_up_single
+#print axioms Cutadapt.C04.counts_add_up_paired
+#print axioms Cutadapt.C04.idents_are_documented
+#print axioms Cutadapt.C04.report_categories_complete
+#print axioms Cutadapt.C04.report_adds_up_single
+#print axioms Cutadapt.C04.report_adds_up_paired
